@@ -190,8 +190,20 @@ func (fr *Frame) callContract(bc *BoundContract, args []Val, p token.Pos) []Val 
 		rvars[k] = v
 	}
 	bc.bindResults(rvars, res)
+	for _, fname := range c.Fresh {
+		for i := range res {
+			if rv, ok := rvars[fname]; ok && rv.t == res[i].t && res[i].t.sort == SLoc {
+				fr.cx.newN++
+				res[i].t = b.NewObj(fr.cx.newN)
+			}
+		}
+	}
+	bc.bindResults(rvars, res)
 	env2 := &SpecEnv{cx: fr.cx, pkg: pkg, vars: rvars, cur: fr.st, old: old}
 	for _, en := range c.Ensures {
+		if en.Assumed {
+			fr.cx.trust(fmt.Sprintf("assumed postcondition of %s: %s", bc.Short(), en.Text))
+		}
 		if g := fr.evalClause(env2, en); g != nil {
 			fr.assume(g)
 		}
